@@ -770,6 +770,62 @@ proof {
 ''', occ=1, label='peek_n.classify'),
     ])
 
+
+position = Fn(
+    F_FMI, IMPL, 'position', ret='p',
+    spec='''
+requires lo_wf(self.input@, self.line_offsets@), offset < usize::MAX, blen(self.input@) <= usize::MAX
+ensures
+    exists|g: int| #[trigger] is_greatest(self.line_offsets@, offset as int, g) && p.line == g + 1 && p.column == offset - self.line_offsets@[g] + 1,
+    // the property: line = 1 + number of line breaks before the offset, column = byte distance from the line start + 1
+    forall|k: int| 0 <= k <= self.input@.len() && #[trigger] boff(self.input@, k) == offset && complete_upto(self.input@, self.line_offsets@, k + 1)
+        ==> p.line == true_line(self.input@, k) && p.column == true_col(self.input@, k),
+    // permitted alternative right after a line break (line start not recorded yet): same line, column after the line break
+    forall|k: int| 0 < k <= self.input@.len() && #[trigger] boff(self.input@, k) == offset && complete_upto(self.input@, self.line_offsets@, k)
+        && starts_line(self.input@, k) && !self.line_offsets@.contains(offset)
+        ==> p.line == true_line(self.input@, k) - 1 && p.column == offset - boff(self.input@, line_start_of(self.input@, k - 1)) + 1,
+''',
+    props=['C09'],
+    edits=[
+        Replace('E3', 'match self.line_offsets.binary_search_by(|&x| $body) {', '''
+let __cl0 = |x0: &usize| -> (o: core::cmp::Ordering) ensures o == (*x0).cmp_spec(&offset) { let x = *x0; $body };
+let ghost g0 = |x: usize| x.cmp_spec(&offset);
+let ghost lo = self.line_offsets@;
+proof {
+    assert(models_ord(__cl0, g0));
+    assert(mono_ord(g0, lo)) by {
+        assert forall|j: int, k: int| 0 <= j < k < lo.len() implies
+            (g0(#[trigger] lo[k]) == core::cmp::Ordering::Less ==> g0(#[trigger] lo[j]) == core::cmp::Ordering::Less) && (g0(lo[j]) == core::cmp::Ordering::Greater ==> g0(lo[k]) == core::cmp::Ordering::Greater) by {
+            assert(lo[j] < lo[k]);
+        }
+    }
+    lemma_lo_bounded(self.input@, lo);
+}
+let __bs = self.line_offsets.binary_search_by(__cl0);
+let ghost gidx: int = match __bs { Ok(i) => i as int, Err(i) => i - 1 };
+proof {
+    assert(models_ord(__cl0, g0) && mono_ord(g0, lo));
+    match __bs {
+        Ok(i) => { if i + 1 < lo.len() { assert(lo[i as int] < lo[i + 1]); } }
+        Err(i) => { if i == 0 { assert(g0(lo[0]) == core::cmp::Ordering::Greater); } }
+    }
+    assert(is_greatest(lo, offset as int, gidx));
+    assert(self.line_offsets.len() == lo.len());
+    assert forall|k: int| 0 <= k <= self.input@.len() && #[trigger] boff(self.input@, k) == offset && complete_upto(self.input@, lo, k + 1)
+        implies lo[gidx] == boff(self.input@, line_start_of(self.input@, k)) && gidx == nl_count(self.input@, k) by {
+        lemma_position_exact(self.input@, lo, k, gidx);
+    }
+    assert forall|k: int| 0 < k <= self.input@.len() && #[trigger] boff(self.input@, k) == offset && complete_upto(self.input@, lo, k)
+        && starts_line(self.input@, k) && !lo.contains(offset)
+        implies lo[gidx] == boff(self.input@, line_start_of(self.input@, k - 1)) && gidx + 1 == nl_count(self.input@, k) by {
+        lemma_position_alt(self.input@, lo, k, gidx);
+    }
+}
+match __bs {''', why='closure pattern `|&x|` bound to a variable and hoisted (E3); scrutinee let-bound (E6)'),
+    ])
+
+position_new = Fn(F_POS, 'Position', 'new', ret='r', spec='ensures r.line == line, r.column == column', props=['C09'])
+
 offset_fn = Fn(F_FMI, IMPL, 'offset', ret='r',
                spec='requires fm_inv(*self)\nensures r == self.last_position + self.offset',
                edits=[Ins('body_start', None, 'proof { axiom_str_blen(self.input); lemma_cur_cursor(*self); lemma_boff_mono(self.input@, cur_n(*self), self.input@.len() as int); }')], props=['C10'])
@@ -826,7 +882,7 @@ TYPES = [it for it in mode.TYPES if not (isinstance(it, Struct) and it.name in (
 UNIT = dict(
     name='u_iter',
     externs=['rustc_hash'],
-    header=dfa.UNIT['header'] + 'use std::sync::Arc;\nuse vstd::std_specs::cmp::*;\nuse vstd::string::StringSliceAdditionalSpecFns;\n',
+    header=dfa.UNIT['header'] + 'use std::sync::Arc;\nuse vstd::std_specs::cmp::OrdSpec;\nuse vstd::string::StringSliceAdditionalSpecFns;\n',
     generic_types=[('ScannerImpl', 'M', mode.BOUND), ('FindMatchesImpl', 'M', mode.BOUND)],
     items=TYPES + [
         RawFile('../common/str_prelude.rs'),
@@ -842,6 +898,7 @@ pub struct CharacterClassRegistry { _private: () }
         RawFile('../u_mode/mode_spec.rs'),
         Struct(F_FMI, 'FindMatchesImpl', derive=[]),
         Enum(F_FM, 'PeekResult'),
+        Struct(F_POS, 'Position', derive=[]),
         RawFile('iter_spec.rs'),
     ] + VALUE_FNS + CONTRACTS + [
         merge_line_offsets,
@@ -854,6 +911,8 @@ pub struct CharacterClassRegistry { _private: () }
         next_match,
         advance_ci,
         peek_n,
+        position_new,
+        position,
         offset_fn,
         fmi_current_mode,
         fmi_set_mode,
